@@ -21,7 +21,7 @@ from pathlib import Path
 
 import numpy as np
 
-from sedpack.io.metadata import DatasetStructure
+from sedpack.io.metadata import Attribute, DatasetStructure
 from sedpack.io.types import AttributeValueT, CompressionT, ExampleT
 from sedpack.io.shard.shard_writer_base import ShardWriterBase
 
@@ -61,11 +61,28 @@ class ShardWriterNP(ShardWriterBase):
         # a missing attribute is noticed before anything is buffered (and all
         # buffered lists keep the same length).
         copies: dict[str, AttributeValueT] = {
-            attribute.name: np.copy(values[attribute.name])
+            attribute.name:
+                self._copy_as_declared(attribute, values[attribute.name])
             for attribute in self.dataset_structure.saved_data_description
         }
         for name, value in copies.items():
             self._buffer.setdefault(name, []).append(value)
+
+    @staticmethod
+    def _copy_as_declared(attribute: Attribute,
+                          value: AttributeValueT) -> AttributeValueT:
+        """Return a copy of `value`. When the value can be safely cast to the
+        declared dtype it is stored in the declared dtype (native byte order).
+        Otherwise a reader which needs the declared dtype has to convert, and
+        `tf.data` converts in threads which flush subnormal numbers to zero.
+        """
+        copied = np.copy(value)
+        if attribute.dtype in ["bytes", "str"]:
+            return copied
+        if copied.dtype != np.dtype(attribute.dtype) and np.can_cast(
+                copied.dtype, attribute.dtype, casting="safe"):
+            copied = copied.astype(attribute.dtype)
+        return copied
 
     def close(self) -> None:
         """Close the shard file(-s).
